@@ -15,11 +15,16 @@ from ..models import retry as model
 
 PID = 'C09'
 LEVEL = 'fault_enumeration'
-RULE = ('one case = one session: a real sync or async client with a retry configuration (backoff family and parameters, '
-        'codes set, exceptions set; client-wide, per-request, per-request None, or none) sends 1..3 requests (single, batch or '
-        'notification) through a transport scripted with one outcome per attempt over {success, listed code, unlisted code, '
-        'batch-level listed error, listed exception, subclass of a listed exception, unlisted exception}. All outcome '
-        'sequences of length n+2 for n in 0..2 are enumerated (n = 3, 4 sampled). Observed: the interleaved sequence of '
+RULE = ('one case = one session: a real sync or async client (strict, or lenient: strict=False) with a retry configuration '
+        '(backoff family and parameters - among them parameters at zero: a cap of exactly 0 / 0.0, a zero base, factor, multiplier - '
+        'codes set, exceptions set; client-wide, per-request, per-request None, or none) sends 1..3 requests (single, batch, '
+        'notification - notify() or send of an id-less request - or a batch made of notifications only) through a transport scripted '
+        'with one outcome per attempt over {success, listed code, unlisted code, '
+        'batch-level listed error, listed exception, subclass of a listed exception, unlisted exception}; for a notification the '
+        'transport hands back nothing, an empty text, or a body (error reply with a listed / unlisted code, with or without an id, a '
+        'result, an array, garbage). All outcome '
+        'sequences of length n+2 for n in 0..2 are enumerated (n = 3, 4 sampled); notification sender x reply x strategy source x '
+        'codes x client is a full product. Observed: the interleaved sequence of '
         'transport calls and time.sleep / asyncio.sleep arguments (the names `time` and `asyncio` inside pjrpc.client.retry '
         'are replaced by recording shims: nothing really waits), and the object reaching the caller. Expected: '
         'vmon/models/retry.py. Distinct = distinct (configuration, request kind, strategy source, consumed script prefix).')
@@ -28,6 +33,10 @@ ASSUMPTIONS = [
     'cap(delay + j) for a draw j used by no other pause - the number and order of draws are left free',
     'a listed error code carried by an element inside a successful batch array is not an attempt outcome (not generated)',
     'a transport exception during a notification is not judged (the statement only says notifications return immediately)',
+    'a STRICT client that is handed a non-empty body for a notification refuses it with an exception of its own: counted, not judged '
+    '(an exception during a notification); a lenient client and an empty / absent body are judged: exactly one send, no pause, None returned',
+    'a batch consisting of notifications only counts as a notification (request.is_notification is true; the peer owes no answer)',
+    'a backoff parameter of 0 / 0.0 is a configured value like any other (max_value=0 caps every pause at 0); None means not configured',
     'delays are compared with tolerance 1e-9',
 ]
 SHARDS = {'quick': 4, 'thorough': 16}
@@ -48,7 +57,17 @@ FLOORS = {'*': {**{f'outcome:{o}:{p}': 10 for o in _OUT for p in ('first', 'midd
                 'source:client': 100, 'source:request': 100, 'source:request-none': 30, 'source:none': 30,
                 'cap-reached': 20, 'jitter:nonzero': 100, 'jitter:fresh-value-per-draw': 100,
                 'jitter:fresh:>=2-pauses-in-one-request': 20, 'entry:send': 300, 'entry:call': 100, 'entry:dunder-call': 100,
-                'entry:proxy': 100, 'entry:notify': 20, 'entry:batch-proxy': 50, 'entry:batch-dunder': 50, 'back-below-the-cap': 20, 'per-request-strategy-lists-nothing': 100, 'codes:reserved-range': 100, 'backend:requests': 20, 'backend:httpx': 20, 'session:followup-requests': 100, 'sleeps-observed': 300}}
+                'entry:proxy': 100, 'entry:notify': 20, 'entry:batch-proxy': 50, 'entry:batch-dunder': 50, 'back-below-the-cap': 20, 'per-request-strategy-lists-nothing': 100, 'codes:reserved-range': 100, 'backend:requests': 20, 'backend:httpx': 20, 'session:followup-requests': 100, 'sleeps-observed': 300,
+                # round 11: backoff parameters at zero (a cap of exactly 0 / 0.0 above all), with retries that actually paused
+                'zero-valued:max_value': 1000, 'zero-valued:max_value:pauses-observed': 300, 'zero-valued:base:pauses-observed': 60,
+                'zero-valued:factor:pauses-observed': 60, 'zero-valued:multiplier:pauses-observed': 60,
+                # round 11: notifications from lenient (strict=False) and strict clients over a transport that answers them
+                'client-non-strict': 500, 'notification-answered-with-a-body:non-strict': 500,
+                'notification-answered-with-a-body:strict': 300, 'kind:notification-batch': 500, 'entry:batch-notify': 200,
+                'notification-reply:nothing': 500, 'notification-reply:empty-text': 100, 'notification-reply:error-listed': 100,
+                'notification-reply:error-unlisted': 100, 'notification-reply:error-listed-with-an-id': 100,
+                'notification-reply:result': 100, 'notification-reply:garbage': 100, 'notification-reply:empty-array': 100,
+                'notification-reply:array-of-listed-errors': 100}}
 
 CODES = {'none': None, 'empty': set(), 'one': {2001}, 'several': {2001, 2002}, 'reserved': {-32050, -32099}}
 # the code the scripted server answers with for a 'listed' / 'unlisted' outcome; under 'reserved' both lie in the range the
@@ -140,6 +159,7 @@ class Script:
         self.idx = 0
         self.raised = []
         self.texts = []
+        self.notif_reply = None      # what the transport hands back when told is_notification (the bundled backends: nothing)
 
     def __call__(self, text, is_notification, kwargs):
         EVENTS.append(('send',))
@@ -162,7 +182,7 @@ class Script:
             raise exc
         self.raised.append(None)
         if is_notification:
-            return None
+            return self.notif_reply
         req = json.loads(text)
         if o == 'exc-identity':
             # a well-formed reply that belongs to another request (a stale answer on a reused connection): the strict client
@@ -198,8 +218,40 @@ def model_outcomes(script, listed=2001, unlisted=999):
     return out
 
 
-def run_session(ctx, spec, codes, excs, is_async, requests):
-    """requests: [{'kind': single|batch|notification, 'source': client|request|request-none|none, 'script': [...]}, ...]"""
+NOTIF_REPLIES = ['nothing', 'empty-text', 'error-listed', 'error-unlisted', 'error-listed-with-an-id', 'result', 'garbage',
+                 'empty-array', 'array-of-listed-errors']
+
+
+def notification_reply(flavour, listed, unlisted):
+    """the body a transport hands back for a notification: a peer that answers everything (message-queue / socket style
+    transports; the bundled HTTP backends return nothing when told is_notification)"""
+    if flavour in (None, 'nothing'):
+        return None
+    if flavour == 'empty-text':
+        return ''
+    if flavour == 'garbage':
+        return '<html>busy</html>'
+    if flavour == 'empty-array':
+        return '[]'
+    if flavour == 'result':
+        return json.dumps({'jsonrpc': '2.0', 'id': None, 'result': 'late'})
+    err = {'code': unlisted if flavour == 'error-unlisted' else listed, 'message': 'server busy', 'data': 'n'}
+    if flavour == 'array-of-listed-errors':
+        return json.dumps([{'jsonrpc': '2.0', 'id': None, 'error': err}])
+    return json.dumps({'jsonrpc': '2.0', 'id': 7 if flavour == 'error-listed-with-an-id' else None, 'error': err})
+
+
+ZERO_PARAMS = ('max_value', 'base', 'factor', 'multiplier')
+
+
+def zero_valued(spec):
+    """names of the backoff parameters that sit at their edge value zero (0 or 0.0; None means 'not configured')"""
+    return [p for p in ZERO_PARAMS if spec.get(p) is not None and not isinstance(spec.get(p), bool) and spec.get(p) == 0]
+
+
+def run_session(ctx, spec, codes, excs, is_async, requests, strict=True):
+    """requests: [{'kind': single|batch|notification|notification-batch, 'source': client|request|request-none|none,
+    'script': [...], 'entry': ..., 'reply': what the transport returns for a notification (NOTIF_REPLIES)}, ...]"""
     ck = 'async' if is_async else 'sync'
     rs = make_strategy(spec, codes, excs)
     decoy = retry_mod.RetryStrategy(backoff=retry_mod.PeriodicBackoff(attempts=6, interval=9.5), codes={2001, 999},
@@ -217,7 +269,12 @@ def run_session(ctx, spec, codes, excs, is_async, requests):
         return transport_box['script'](text, is_notification, kwargs)
 
     cls_ = clientside.AsyncClient if is_async else clientside.SyncClient
-    client = cls_(transport, retry_strategy=client_wide)
+    client = cls_(transport, retry_strategy=client_wide, strict=strict)
+    ctx.hit('client-strict' if strict else 'client-non-strict')
+    zeros = zero_valued(spec)
+    zero_tag = (':zero-valued-' + '+'.join(zeros)) if zeros else ''
+    for p in zeros:
+        ctx.hit('zero-valued:' + p)
     fresh_jitter = spec.get('jitter') == 'fresh'
     delays_full = model.backoff_delays(dict(spec, jitter=0.0) if fresh_jitter else spec)
     del DRAWS[:]
@@ -237,8 +294,12 @@ def run_session(ctx, spec, codes, excs, is_async, requests):
             ctx.hit('back-below-the-cap')
     for ridx, r in enumerate(requests):
         kind, source, script = r['kind'], r['source'], r['script']
-        if kind == 'notification':
+        is_notif = kind in ('notification', 'notification-batch')
+        if is_notif:
             script = ['ok' if o == 'exc-identity' else o for o in script]       # nothing comes back that could mismatch
+        elif not strict:
+            # a lenient client does not compare identities: the stale answer is no exception there (not this property's subject)
+            script = ['exc-sub' if o == 'exc-identity' else o for o in script]
         if 'exc-identity' in script:
             ctx.hit('identity-error:' + ('listed' if any(issubclass(pjrpc.exceptions.IdentityError, e) for e in (EXCS[excs] or ())) else 'unlisted'))
         if ridx:
@@ -252,6 +313,10 @@ def run_session(ctx, spec, codes, excs, is_async, requests):
         exc_types = tuple(EXCS[excs] or ())
         listed, unlisted = LISTED_CODE.get(codes, 2001), UNLISTED_CODE.get(codes, 999)
         sc = Script(script, listed, unlisted)
+        reply = r.get('reply') if is_notif else None
+        sc.notif_reply = notification_reply(reply, listed, unlisted)
+        answered = bool(sc.notif_reply)
+        ntag = ':notification-answered-with-a-body' if answered else ''
         transport_box['script'] = sc
         del EVENTS[:]
         kw = {}
@@ -268,7 +333,13 @@ def run_session(ctx, spec, codes, excs, is_async, requests):
             entry = {'proxy': 'batch-proxy', 'dunder-call': 'batch-dunder'}.get(entry, 'call')
         if kind == 'notification' and entry != 'send':
             entry = 'notify'
+        if kind == 'notification-batch' and entry != 'send':
+            entry = 'batch-notify'
         ctx.hit('entry:' + entry)
+        if is_notif:
+            ctx.hit(f"notification-reply:{reply or 'nothing'}")
+            if answered:
+                ctx.hit('notification-answered-with-a-body:' + ('strict' if strict else 'non-strict'))
         if kind == 'single':
             req = v20.Request('m', [ridx], id=7 + ridx)
             fn = {'send': lambda: client.send(req, **kw), 'call': lambda: client.call('m', ridx),
@@ -285,6 +356,13 @@ def run_session(ctx, spec, codes, excs, is_async, requests):
             else:
                 entry = 'call'
                 st, out = clientside.outcome_of(lambda: client.batch.add('a', 1).add('b', 2).notify('n', 3).call(), is_async)
+        elif kind == 'notification-batch':
+            # a batch that consists of notifications only is a notification itself: the peer owes no answer
+            if entry == 'send':
+                req = v20.BatchRequest(v20.Request('n', [ridx]), v20.Request('n2', [ridx + 1]))
+                st, out = clientside.outcome_of(lambda: client.batch.send(req, **kw), is_async)
+            else:
+                st, out = clientside.outcome_of(lambda: client.batch.notify('n', ridx).notify('n2', ridx + 1).call(), is_async)
         else:
             req = v20.Request('n', [ridx], id=None)
             if entry == 'send':
@@ -293,18 +371,24 @@ def run_session(ctx, spec, codes, excs, is_async, requests):
                 entry = 'notify'
                 st, out = clientside.outcome_of(lambda: client.notify('n', ridx), is_async)
         observed = list(EVENTS)
-        want_events, final = model.run(effective, CODES[codes], exc_types, model_outcomes(script, listed, unlisted), kind == 'notification')
+        want_events, final = model.run(effective, CODES[codes], exc_types, model_outcomes(script, listed, unlisted), is_notif)
         consumed = tuple(script[:final + 1])
         for pos, o in enumerate(consumed):
             ctx.hit(f"outcome:{o}:{'first' if pos == 0 else ('last' if pos == len(consumed) - 1 else 'middle')}")
         if effective is not None and sum(1 for e in want_events if e != 'send') == len(effective) and len(effective) > 0:
             ctx.hit('exhausted-strategy')
-        cls = (json.dumps(spec, sort_keys=True), codes, excs, ck, kind, source, consumed, ridx)
+        cls = (json.dumps(spec, sort_keys=True), codes, excs, ck, kind, source, consumed, ridx, strict, reply)
         fam = f'{kind}:{source}:{ck}'
         wit = dict(backoff=spec, codes=codes, exceptions=excs, client=ck, request=ridx, kind=kind, strategy_source=source,
-                   script=script, expected_events=want_events, observed_events=observed, outcome=[st, out])
-        if kind == 'notification' and consumed[-1].startswith('exc'):
+                   script=script, expected_events=want_events, observed_events=observed, outcome=[st, out], strict_client=strict)
+        if is_notif:
+            wit['transport_reply_to_the_notification'] = sc.notif_reply
+        if is_notif and consumed[-1].startswith('exc'):
             ctx.unjudge('notification-with-transport-exception')
+            continue
+        if answered and strict:
+            # a strict client refuses the unexpected body with an exception of its own: an exception during a notification
+            ctx.unjudge('notification-answered-with-a-body:strict-client-raises')
             continue
         # ---- event sequence: sends, sleeps, their positions and arguments
         obs_simple = ['send' if e[0] == 'send' else ('sleep', e[1]) for e in observed]
@@ -312,34 +396,36 @@ def run_session(ctx, spec, codes, excs, is_async, requests):
         n_send_w = sum(1 for e in want_events if e == 'send')
         bound = (len(effective) if effective is not None else 0) + 1
         if n_send_o > bound:
-            ctx.violation('more-sends-than-attempts-plus-one', fam, cls, **wit)
+            ctx.violation('more-sends-than-attempts-plus-one' + ntag, fam, cls, **wit)
             continue
         if n_send_o != n_send_w:
-            last = consumed[-1]
-            ctx.violation(f"wrong-number-of-sends:{'too-many' if n_send_o > n_send_w else 'too-few'}:after-{last}", fam, cls, **wit)
+            last = 'a-notification' if is_notif else consumed[-1]
+            ctx.violation(f"wrong-number-of-sends:{'too-many' if n_send_o > n_send_w else 'too-few'}:after-{last}" + ntag, fam, cls, **wit)
             continue
         sleeps_o = [e[1] for e in obs_simple if e != 'send']
         sleeps_w = [e[1] for e in want_events if e != 'send']
         if sleeps_o:
             ctx.hit('sleeps-observed', len(sleeps_o))
+            for p in zeros:
+                ctx.hit(f'zero-valued:{p}:pauses-observed')
         if len(sleeps_o) != len(sleeps_w):
-            ctx.violation('wrong-number-of-pauses', fam, cls, **wit)
+            ctx.violation('wrong-number-of-pauses' + ntag, fam, cls, **wit)
             continue
         if [e if e == 'send' else 'sleep' for e in obs_simple] != [e if e == 'send' else 'sleep' for e in want_events]:
-            ctx.violation('pause-at-wrong-position', fam, cls, **wit)
+            ctx.violation('pause-at-wrong-position' + ntag, fam, cls, **wit)
             continue
         bad = [(a, b) for a, b in zip(sleeps_o, sleeps_w) if not isinstance(a, (int, float)) or abs(a - b) > 1e-9]
         if fresh_jitter:
             bad = []
             if any(not isinstance(a, (int, float)) for a in sleeps_o) or not model.pauses_explained_by_draws(
                     sleeps_o, model.raw_delays(spec), spec.get('max_value'), list(DRAWS), used_draws):
-                ctx.violation(f"pause-is-not-delay-plus-a-fresh-jitter-draw:{spec['family']}", fam, cls, jitter_draws=list(DRAWS),
+                ctx.violation(f"pause-is-not-delay-plus-a-fresh-jitter-draw:{spec['family']}" + zero_tag, fam, cls, jitter_draws=list(DRAWS),
                               raw_delays=model.raw_delays(spec), **wit)
                 continue
             if len(sleeps_o) >= 2:
                 ctx.hit('jitter:fresh:>=2-pauses-in-one-request')
         if bad:
-            ctx.violation(f"pause-duration-differs:{spec['family']}", fam, cls, differing=bad, **wit)
+            ctx.violation(f"pause-duration-differs:{spec['family']}" + zero_tag, fam, cls, differing=bad, **wit)
             continue
         wrong_kind = [e for e in observed if e[0] == 'sleep' and e[2] != ('asyncio' if is_async else 'time')]
         if wrong_kind:
@@ -355,9 +441,9 @@ def run_session(ctx, spec, codes, excs, is_async, requests):
             if st != 'exc' or out is not sc.raised[final]:
                 ctx.violation('last-exception-not-reraised-unchanged', fam, cls, **wit)
                 continue
-        elif kind == 'notification':
+        elif is_notif:
             if st != 'ret' or out is not None:
-                ctx.violation('notification-did-not-return-none' + (f':raised-{type(out).__name__}' if st == 'exc' else ''), fam, cls, **wit)
+                ctx.violation('notification-did-not-return-none' + (f':raised-{type(out).__name__}' if st == 'exc' else '') + ntag, fam, cls, **wit)
                 continue
         else:
             want_ok = last == 'ok'
@@ -407,6 +493,22 @@ def backoff_grid(n):
     out.append({'family': 'exponential', 'attempts': n, 'base': 1.0, 'factor': 0.25, 'max_value': None, 'jitter': 0.0})
     for how in ('iter', 'map', 'islice'):
         out.append({'family': 'custom-iterator', 'attempts': n, 'schedule': [0.5, 0.25, 2.0, 0.125, 1.0][:n], 'how': how})
+    # parameters at their edge value zero. A cap of exactly 0 / 0.0 is a cap below every delay ("retry at once, never wait");
+    # a zero base / multiplier leaves the jitter alone; a zero factor gives base, 0, 0, ... (x ** 0 == 1)
+    for j in js:
+        for mx in (0, 0.0):
+            out.append({'family': 'exponential', 'attempts': n, 'base': 1.0, 'factor': 2.0, 'max_value': mx, 'jitter': j})
+            out.append({'family': 'fibonacci', 'attempts': n, 'multiplier': 2.0 if mx == 0 and isinstance(mx, int) else 0.75,
+                        'max_value': mx, 'jitter': j})
+        out.append({'family': 'exponential', 'attempts': n, 'base': 0.0, 'factor': 2.0, 'max_value': (None, 2.5, 0.0, 0.5)[js.index(j)], 'jitter': j})
+        out.append({'family': 'fibonacci', 'attempts': n, 'multiplier': 0.0, 'max_value': (0.5, None, 2.5, 0)[js.index(j)], 'jitter': j})
+        out.append({'family': 'exponential', 'attempts': n, 'base': 1.5, 'factor': 0.0, 'max_value': (None, 0.5, None, 2.5)[js.index(j)], 'jitter': j})
+    out.append({'family': 'exponential', 'attempts': n, 'base': 0, 'factor': 0, 'max_value': 0, 'jitter': 0.0})
+    out.append({'family': 'exponential', 'attempts': n, 'base': 0.5, 'factor': 3.0, 'max_value': 0.0, 'jitter': 0.25})
+    out.append({'family': 'fibonacci', 'attempts': n, 'multiplier': 3, 'max_value': 0, 'jitter': -0.125})
+    out.append({'family': 'fibonacci', 'attempts': n, 'multiplier': 0.0, 'max_value': 0.0, 'jitter': 0.25})
+    # gen() strides through the grid in steps of 7 and derives the other dimensions from k modulo 2, 3, 5, 7, 8, 11
+    assert all(len(out) % p for p in (2, 3, 5, 7, 11)), len(out)
     return out
 
 
@@ -443,13 +545,22 @@ def gen(ctx):
                     excs = ('identity', 'base', 'one', 'identity', 'none')[(k // 4) % 5]
                 reqs = [{'kind': kind, 'source': source, 'script': script_,
                          'entry': ('send', 'call', 'dunder-call', 'proxy', 'send')[(k // 7) % 5]}]
+                strict = True
+                if k % 11 == 0:
+                    # the notifications of this stride: lenient as well as strict clients, a peer that answers notifications
+                    # too, a batch made of notifications only
+                    strict = bool((k // 11) % 3 == 0)
+                    reqs[0]['reply'] = NOTIF_REPLIES[(k // 11) % len(NOTIF_REPLIES)]
+                    if (k // 11) % 2:
+                        reqs[0]['kind'] = 'notification-batch'
                 # follow-up requests on the same client: each gets a fresh retry budget and fresh pacing
                 if source in ('client', 'request') and (k % 2):
                     for _ in range(1 + (k % 3 == 0)):
                         s2 = list(rng.choice(scripts))
                         reqs.append({'kind': kinds[rng.randrange(2)], 'source': source, 'script': s2,
                                      'entry': rng.choice(['send', 'call', 'dunder-call', 'proxy'])})
-                yield 'session', dict(spec=spec, codes=codes, excs=excs, is_async=bool((k // 5) % 2), requests=reqs)
+                yield 'session', dict(spec=spec, codes=codes, excs=excs, is_async=bool((k // 5) % 2), requests=reqs,
+                                      **({} if strict else {'strict': False}))
 
 
 class DroppingServer:
@@ -577,11 +688,38 @@ def crafted(ctx):
                                   is_async=bool(k % 2), requests=[{'kind': kind, 'source': 'request', 'script': list(script) + ['ok']}])
 
 
+def crafted_notifications(ctx):
+    """notifications return at once - one send, no pause, nothing returned - whoever sends them (strict or lenient client; notify,
+    send of an id-less request, a batch made of notifications only), whatever strategy is in effect and whatever the transport
+    hands back for them (nothing, an empty text, an error reply whose code the strategy lists, ...)"""
+    grid = [s for n in (1, 2, 3) for s in backoff_grid(n)]
+    k = 0
+    for strict in (False, True):
+        for reply in NOTIF_REPLIES:
+            for kind, entry in (('notification', 'send'), ('notification', 'notify'), ('notification-batch', 'send'),
+                                ('notification-batch', 'batch-notify')):
+                for source in ('client', 'request', 'request-none', 'none'):
+                    for codes in ('one', 'several', 'reserved', 'none', 'empty'):
+                        for is_async in (False, True):
+                            k += 1
+                            first = 'exc-listed' if k % 13 == 0 else 'ok'
+                            reqs = [{'kind': kind, 'source': source, 'entry': entry, 'reply': reply, 'script': [first] + ['ok'] * 4}]
+                            if k % 2:
+                                # the notification has used up nothing: the next request has the whole retry budget and pacing
+                                reqs.append({'kind': ('single', 'batch')[(k // 2) % 2], 'source': source, 'entry': 'send',
+                                             'script': [('listed', 'exc-listed', 'exc-sub')[(k // 4 + i) % 3] for i in range(3)] + ['unlisted', 'ok']})
+                                if k % 3 == 0:
+                                    reqs.append(dict(reqs[0], entry=('send', 'notify')[(k // 6) % 2]))
+                            yield 'session', dict(spec=grid[(k * 7) % len(grid)], codes=codes, excs=('one', 'base', 'none', 'several')[(k // 3) % 4],
+                                                  is_async=is_async, requests=reqs, strict=strict)
+
+
 _gen_sampled = gen
 
 
 def gen(ctx):
     yield from crafted(ctx)
+    yield from crafted_notifications(ctx)
     for backend in ('requests', 'httpx'):
         for drops in (0, 1, 2, 3, 5):
             for attempts, listed in ((None, True), (0, True), (1, True), (2, True), (3, True), (2, False)):
